@@ -88,6 +88,10 @@ def file_interface(col, cls, a, b, rec, tmp, r, subproc):
     for fn, nb in ((fa, a), (fb, b)):
         with open(fn, "w", encoding="utf8") as f:
             json.dump(disk_form(nb, r), f, ensure_ascii=r.random() < 0.5)
+    inplace = col.evaluations % 5 == 2
+    if inplace:
+        # `nbpatch nb.ipynb d.json -o nb.ipynb`: the notebook is patched IN PLACE (the output names the base file)
+        col.count("file_interface_patched_in_place")
     # D.json and G.ipynb are deliberately NOT removed: a user re-uses the same output paths, and a longer file
     # left over from the previous pair must be fully replaced
     case = {"A": a, "B": b, "class": cls, "record": rec, "file_interface": "subprocess" if subproc else "in-process"}
@@ -103,7 +107,7 @@ def file_interface(col, cls, a, b, rec, tmp, r, subproc):
             p1 = subprocess.run([sys.executable, "-m", "nbdime.nbdiffapp", fa, fb, "--out", fd], env=e, cwd=tmp,
                                 capture_output=True, timeout=120)
             rc1 = p1.returncode
-            p2 = subprocess.run([sys.executable, "-m", "nbdime.nbpatchapp", fa, fd, "-o", fg], env=e, cwd=tmp,
+            p2 = subprocess.run([sys.executable, "-m", "nbdime.nbpatchapp", fa, fd, "-o", fa if inplace else fg], env=e, cwd=tmp,
                                 capture_output=True, timeout=120)
             rc2 = p2.returncode
             errtxt = (p1.stderr + p2.stderr).decode(errors="replace")[-300:]
@@ -116,7 +120,7 @@ def file_interface(col, cls, a, b, rec, tmp, r, subproc):
             os.chdir(tmp)
             try:
                 rc1 = nbdime.nbdiffapp.main([fa, fb, "--out", fd])
-                rc2 = nbdime.nbpatchapp.main([fa, fd, "-o", fg])
+                rc2 = nbdime.nbpatchapp.main([fa, fd, "-o", fa if inplace else fg])
             finally:
                 os.chdir(cwd)
             errtxt = ""
@@ -133,7 +137,7 @@ def file_interface(col, cls, a, b, rec, tmp, r, subproc):
         return
     col.mon("file_interface_subprocess" if subproc else "file_interface")
     try:
-        with open(fg, encoding="utf8") as f:
+        with open(fa if inplace else fg, encoding="utf8") as f:
             got = json.load(f)
     except Exception as e:
         col.violation("file-interface-output-unreadable", repr(e)[:200], case, "file-interface")
